@@ -10,7 +10,7 @@ from collections import Counter
 
 import asyncstdlib as A
 
-from ..loop import CTX, drive
+from ..loop import run_finalizers, CTX, drive
 from ..probes import Item, SrcState, Plan, make_source
 
 ID = "C07"
@@ -341,6 +341,7 @@ def run_history(case, stats, scoped=None):
                     if ending == "abandon":
                         del ait
                         gc.collect()
+                        run_finalizers()  # the loop gets around to closing what was abandoned
                         state[h] = "closed" if ended else "unknown"
                         counters["tools_abandoned"] += 1
                     else:
